@@ -81,7 +81,39 @@ def inbound_clauses(pre, post, m, sender, target):
     #  enters LOGON_INITIAL_SENT itself)
     cl.append(("reach.role_changes_only_on_first_message", Implies(Not(Eq(post.role, pre.role)), Eq(pre.st, NET))))
     cl.append(("reach.never_enters_logon_sent", Implies(Eq(post.st, SENT), Eq(pre.st, SENT))))
+    # -- "until the Logon exchange has completed": a side that has not sent its Logon yet (fresh connection, whatever
+    #    role it was configured with) is logged on only by a call that also puts its own Logon on the wire
+    logons = [f for f in new if (not f.opaque) and f.type == "A"]
+    cl.append(("logon_exchange.established_only_with_our_logon",
+               Implies(And(Eq(pre.st, NET), In(post.st, LOGGED_ON)), len(logons) == 1)))
+    cl.append(("logon_exchange.nothing_delivered_by_the_logon_call",
+               Implies(Or(Eq(pre.st, NET), Eq(pre.st, SENT)), len(dl) == 0)))
     return cl
+
+
+def inbound_fault_clauses(pre, post, m, sender, target):
+    """The same sentences when the transport fails while the Logout with the reason is sent (drain() raises): the
+    connection must not stay up silently - either it is disconnected or the ConnectionError reaches the caller
+    (socket_read_task answers every ConnectionError with disconnect(DISCONNECTED_BROKEN_CONN))."""
+    e = pre.nin
+    s = m.ival("34")
+    dl = post.A[len(pre.A):]
+    disconnected = post.st <= 3
+    faulted = post.outcome == "raise:ConnectionResetError"
+    begin_bad = Not(Eq(m.val("8"), "FIX.4.4"))
+    ids_missing = Or(Not(m.has("49")), Not(m.has("56")))
+    ids_wrong = And(Not(ids_missing), Not(And(Eq(m.val("49"), target), Eq(m.val("56"), sender))))
+    seq_missing = Or(Not(m.has("34")), Not(m.int_ok("34")))
+    too_low = And(m.has("34"), m.int_ok("34"), s < e, Not(Eq(m.type, "4")), Not(Eq(pre.st, A_)))
+    head_ok = And(Not(begin_bad), Not(ids_missing), Not(ids_wrong))
+    defect = Or(begin_bad, ids_missing, ids_wrong, seq_missing, too_low)
+    need_drop = Or(ids_missing, ids_wrong, And(head_ok, Or(seq_missing, too_low)))
+    return [
+        ("fault.integrity_drops_or_reports", Implies(need_drop, Or(disconnected, faulted))),
+        ("fault.first_non_logon_drops_or_reports", Implies(And(Eq(pre.st, NET), Not(Eq(m.type, "A"))), Or(disconnected, faulted))),
+        ("fault.no_delivery", Implies(defect, len(dl) == 0)),
+        ("fault.counter_kept", Implies(defect, Eq(post.nin, e))),
+    ]
 
 
 def syntactic(repo):
@@ -112,10 +144,12 @@ def syntactic(repo):
              f"sites: {role_sites}")]
 
 
-def explore_inbound(I, states):
+def explore_inbound(I, states, drain_mode=None):
     """_process_message on a message whose header fields are all symbolic."""
     c = I.ctx
     conn = sc.mk_conn(I, states=states, writer=True, reader=True)
+    if drain_mode:
+        I.ctx.ghost["drain_mode"] = drain_mode
     sess = conn.f["_session"].f
     msg = sc.mk_msg(I, "m", fixed={"8": c.inp_str("m_v8")})
     m = sc.emsg(I, "m", register=("34", "43", "49", "56", "123", "36", "7", "16", "112"))
@@ -138,6 +172,11 @@ def explore_inbound(I, states):
 def inbound_harness(I):
     pre, post, m, sender, target = explore_inbound(I, CONNECTED)
     return inbound_clauses(pre, post, m, sender, target)
+
+
+def inbound_fault_harness(I):
+    pre, post, m, sender, target = explore_inbound(I, CONNECTED, drain_mode="fault")
+    return inbound_fault_clauses(pre, post, m, sender, target)
 
 
 def inbound_mustfail(I):
@@ -188,6 +227,40 @@ def send_clauses(pre, post, m):
     # LOGON_INITIAL_SENT is entered only here and only together with role INITIATOR (reachability fact used above)
     cl.append(("send.sets_initiator", Implies(And(Not(Eq(pre.st, SENT)), Eq(post.st, SENT)), Eq(post.role, 1))))
     return cl
+
+
+def send_rely_clauses(pre, post):
+    """send_msg suspended in drain() while another task of the connection ran disconnect(): after it resumes it
+    must not touch the (now disconnected) connection: no further frame, no callback, state stays disconnected."""
+    ra = post.get("resumed_at")
+    if not ra:
+        return [("send.rely.not_fired", True)]
+    n_ev, n_w = ra
+    return [
+        ("send.rely.stays_disconnected", post.st <= 3),
+        ("send.rely.no_callback_after_disconnect", len(post.EV) == n_ev),
+        ("send.rely.no_frame_after_disconnect", len(post.W) == n_w),
+        ("send.rely.socket_released", Not(post.writer)),
+    ]
+
+
+def send_rely_harness(I):
+    c = I.ctx
+    conn = sc.mk_conn(I, states=CONNECTED, writer=True, reader=True)
+    I.ctx.ghost["drain_mode"] = "disconnect"
+    msg = sc.mk_msg(I, "m")
+    m = sc.emsg(I, "m", register=("34", "43"))
+    pre = sc.eview(I, conn)
+    I.ctx.ghost["pre_view"] = pre
+    k0 = c.inp_int("k0")
+    I.ctx.ghost["k0"] = k0
+    for n, cl in ic.inv_clauses(pre, k0):
+        c.assume(cl)
+    c.assume(reach(pre))
+    out = sc.run(I, I.getattr(conn, "send_msg"), [msg])
+    sc.observe(I, conn, out, pre)
+    post = sc.eview(I, conn, out)
+    return send_rely_clauses(pre, post)
 
 
 def send_harness(I):
@@ -262,9 +335,9 @@ def witness_case(task, cover):
     if task.name == "inert":
         return sc.conn_native_case("process_message", dict(inp, m_has_8=True, has_writer=False, has_reader=False),
                                    begin_ok=False)
-    if task.name in ("inbound", "inert"):
+    if task.name in ("inbound", "inert", "inbound[transport_fault]"):
         return sc.conn_native_case("process_message", dict(inp, m_has_8=True), begin_ok=False)
-    if task.name == "send":
+    if task.name in ("send", "send[disconnected_while_draining]"):
         return sc.conn_native_case("send_msg", inp, begin_ok=False)
     if task.name == "disconnect":
         return sc.conn_native_case("disconnect", inp, with_msg=False,
@@ -297,6 +370,11 @@ def violates(rp, obs):
     if task == "inbound":
         m = concrete_msg(case)
         cls = inbound_clauses(pre, post, m, pre.get("sender", "S"), pre.get("target", "T"))
+    elif task == "inbound[transport_fault]":
+        m = concrete_msg(case)
+        cls = inbound_fault_clauses(pre, post, m, pre.get("sender", "S"), pre.get("target", "T"))
+    elif task == "send[disconnected_while_draining]":
+        cls = send_rely_clauses(pre, post)
     elif task == "send":
         cls = send_clauses(pre, post, concrete_msg(case))
     elif task == "disconnect":
@@ -316,7 +394,10 @@ FUNCS = [CONN + "." + f for f in ("_process_message", "_validate_integrity", "_p
 TASKS = [
     Task("inbound", inbound_harness, ic.pm_cfg(), FUNCS, native="conn", timeout_ms=20000),
     Task("inert", inert_harness, ic.pm_cfg(), [CONN + "._process_message"], native="conn"),
+    Task("inbound[transport_fault]", inbound_fault_harness, ic.pm_cfg(), FUNCS, native="conn", timeout_ms=20000),
     Task("send", send_harness, sc.session_cfg(), [CONN + ".send_msg"], native="conn"),
+    Task("send[disconnected_while_draining]", send_rely_harness, sc.session_cfg(), [CONN + ".send_msg", CONN + ".disconnect"],
+         native="conn"),
     Task("disconnect", disconnect_harness, sc.session_cfg(), [CONN + ".disconnect"], native="conn"),
     Task("mustfail", inbound_mustfail, ic.pm_cfg(), [], expect_refuted=True),
 ]
